@@ -642,6 +642,13 @@ func valueDesc(v ssa.Value) string {
 		if x.Call.IsInvoke() {
 			return valueDesc(x.Call.Value) + "." + x.Call.Method.Name() + "()"
 		}
+		if b, ok := x.Call.Value.(*ssa.Builtin); ok {
+			var as []string
+			for _, a := range x.Call.Args {
+				as = append(as, valueDesc(a))
+			}
+			return b.Name() + "(" + strings.Join(as, ",") + ")"
+		}
 		if sc := x.Call.StaticCallee(); sc != nil {
 			var as []string
 			for _, a := range x.Call.Args {
